@@ -78,7 +78,7 @@ def run(rep, index):
     # ---- ownership (engine A): only these methods may store the two fields
     stores = state_fields(rep, index, m, cls)
     rep.count("state stores", sum(len(v) for v in stores.values()))
-    rep.floor("state stores", 4)
+    rep.floor("state stores", 2)
     for attr, fns in sorted(stores.items()):
         rep.note("stores to self.%s in: %s" % (attr, ", ".join(fns)))
     # any store to those attribute names elsewhere in the package
@@ -96,7 +96,46 @@ def run(rep, index):
                         rep.ob("C13.R2 ownership", "%s store to .%s" % (modname, n.attr), False,
                                "state of a sequencer written from outside its class", loc=index.loc(mm, n))
 
-    # ---- per-operation refinement
+    # ---- per-operation refinement, under a coupling between the integer field and the model's counter
+    # (a) the field IS the counter and stays in 0..9;  (b) the field counts freely and the counter is field mod 10.
+    # A refinement proof needs one coupling under which every obligation holds.
+    chosen, outcomes = None, {}
+    for coupling in ("identity", "mod10"):
+        obs, npaths = _refine(ev, index, m, cls, public, SF, CF, coupling)
+        outcomes[coupling] = (obs, npaths)
+        if all(ok for _, _, ok, _ in obs):
+            chosen = coupling
+            break
+    if chosen is None:
+        # no coupling works: a violation is reported only with a history on which the interpreted class really
+        # departs from start + (n mod 10); otherwise the representation is one this check does not understand
+        w = _find_history(ev, index, m, cls, public)
+        if w is None:
+            bad = [o for o in outcomes["identity"][0] if not o[2]][0]
+            raise AnalysisError("C13: no coupling between the state and the model discharges every obligation (%s %s: %s) "
+                                "but no examined history departs from the model -- undecided" % (bad[0], bad[1], bad[3]))
+        best = min(outcomes, key=lambda k: sum(1 for o in outcomes[k][0] if not o[2]))
+        obs, npaths = outcomes[best]
+        rep.note("closest coupling relation: %s" % best)
+        rep.count("operation paths", npaths)
+        for rule, inst, ok, detail in obs:
+            rep.ob(rule, inst, ok, detail if ok else "%s; witness history: %s" % (detail, w))
+    else:
+        obs, npaths = outcomes[chosen]
+        rep.count("operation paths", npaths)
+        rep.note("coupling relation: %s" % ("model counter = self.%s, 0 <= self.%s <= 9" % (CF, CF) if chosen == "identity"
+                                            else "model counter = self.%s mod 10, self.%s >= 0" % (CF, CF)))
+        for rule, inst, ok, detail in obs:
+            rep.ob(rule, inst, ok, detail)
+    rep.floor("public operations", 2)
+    rep.floor("operation paths", 2)
+    rep.assumptions.append("SequenceStart.value is a pure read (checked for the classes in sequence_start.py by C12)")
+    rep.trusted.append("/verif/sa/refs/sequencer_model.py")
+
+
+def _refine(ev, index, m, cls, public, SF, CF, coupling):
+    obs = []
+    npaths = 0
     for name in public:
         fn = index.methods(cls, name)[0]
         params = [a.arg for a in fn.args.args][1:]
@@ -104,53 +143,93 @@ def run(rep, index):
         def task(name=name, params=params):
             s = StartStub("start")
             o = Obj(ev.lookup_global(m, CLS))
-            c = B.fresh("counter", 0, 9)
+            if coupling == "identity":
+                f = B.fresh("counter", 0, 9)
+                c = f
+            else:
+                f = B.fresh("count", 0, None)
+                c = B.divmod_const(f, 10)[1]
             o.d[SF] = s
-            o.d[CF] = c
+            o.d[CF] = f
             args = [StartStub("new_start") for _ in params]
             res = ev.call(Frame(ev, m, {}).getattr(o, name), args, {})
             ref_res = ev.call_qual("refs.sequencer_model.next_result", [s.v, c])
             ref_cnt = ev.call_qual("refs.sequencer_model.next_counter", [c])
-            return s, c, o, args, res, ref_res, ref_cnt
+            f1 = o.d.get(CF)
+            c1 = None
+            if isinstance(f1, (int, Aff)) and not isinstance(f1, bool):
+                c1 = Aff.of(f1) if coupling == "identity" else B.divmod_const(Aff.of(f1), 10)[1]
+            return s, c, f, o, args, res, ref_res, ref_cnt, c1
 
         paths = B.explore(task)
-        rep.count("operation paths", len(paths))
+        npaths += len(paths)
         for p, st, val in paths:
             B.set_path(p)
             inst = "%s.%s path[%s]" % (CLS, name, _fmt(p))
             if st != "ok":
-                rep.ob("C13.R3 total", inst, False, "raises %s" % val.exc_name)
+                obs.append(("C13.R3 total", inst, False, "raises %s" % val.exc_name))
                 continue
-            s, c, o, args, res, ref_res, ref_cnt = val
+            s, c, f, o, args, res, ref_res, ref_cnt, c1 = val
             extra = set(o.d) - {SF, CF}
-            rep.ob("C13.R3 no-hidden-state", inst, not extra, "fields after the call: %s" % sorted(o.d))
-            cnt = o.d[CF]
-            if not isinstance(cnt, (int, Aff)):
-                rep.ob("C13.R4 counter-invariant", inst, False, "counter became %r" % (cnt,))
+            obs.append(("C13.R3 no-hidden-state", inst, not extra, "fields after the call: %s" % sorted(o.d)))
+            cnt = o.d.get(CF)
+            if c1 is None:
+                obs.append(("C13.R4 counter-invariant", inst, False, "counter became %r" % (cnt,)))
                 continue
             lo, hi = B.bounds(Aff.of(cnt))
-            rep.ob("C13.R4 counter-invariant", inst, lo is not None and hi is not None and lo >= 0 and hi <= 9,
-                   "counter' in [%s,%s] given counter in [0,9]" % (lo, hi))
-            returns_value = res is not None
-            if returns_value:
-                # a 'next' operation: result and counter update must match the model; start untouched
-                d = B.norm(Aff.of(res) - Aff.of(ref_res)) if isinstance(res, (int, Aff)) else None
-                rep.ob("C13.R5 next-result", inst, d is not None and d.is_const() and d.c == 0,
-                       "result - (start + counter) = %r" % (d,))
-                d2 = B.norm(Aff.of(cnt) - Aff.of(ref_cnt))
-                ok2 = (d2.is_const() and d2.c == 0) or B.prove_eq0(d2) is True
-                rep.ob("C13.R5 next-counter", inst, ok2, "counter' - (counter+1) mod 10 = %r" % d2)
-                rep.ob("C13.R5 next-keeps-start", inst, o.d[SF] is s, "start after next: %r" % (o.d[SF],))
+            if coupling == "identity":
+                obs.append(("C13.R4 counter-invariant", inst, lo is not None and hi is not None and lo >= 0 and hi <= 9,
+                            "counter' in [%s,%s] given counter in [0,9]" % (lo, hi)))
             else:
-                # an update operation: counter untouched, start replaced by the argument
-                d2 = B.norm(Aff.of(cnt) - c)
-                rep.ob("C13.R6 update-keeps-counter", inst, d2.is_const() and d2.c == 0, "counter' - counter = %r" % d2)
-                rep.ob("C13.R6 update-sets-start", inst, len(args) == 1 and o.d[SF] is args[0],
-                       "start after update is the argument: %s" % (len(args) == 1 and o.d[SF] is args[0]))
-    rep.floor("public operations", 2)
-    rep.floor("operation paths", 2)
-    rep.assumptions.append("SequenceStart.value is a pure read (checked for the classes in sequence_start.py by C12)")
-    rep.trusted.append("/verif/sa/refs/sequencer_model.py")
+                obs.append(("C13.R4 counter-invariant", inst, lo is not None and lo >= 0, "count' >= %s given count >= 0" % lo))
+            if res is not None:
+                d = B.norm(Aff.of(res) - Aff.of(ref_res)) if isinstance(res, (int, Aff)) and not isinstance(res, bool) else None
+                obs.append(("C13.R5 next-result", inst, d is not None and B.is_zero(d), "result - (start + counter) = %r" % (d,)))
+                d2 = B.norm(c1 - Aff.of(ref_cnt))
+                obs.append(("C13.R5 next-counter", inst, B.is_zero(d2), "counter' - (counter+1) mod 10 = %r" % d2))
+                obs.append(("C13.R5 next-keeps-start", inst, o.d[SF] is s, "start after next: %r" % (o.d[SF],)))
+            else:
+                d2 = B.norm(c1 - c)
+                obs.append(("C13.R6 update-keeps-counter", inst, B.is_zero(d2), "counter' - counter = %r" % d2))
+                obs.append(("C13.R6 update-sets-start", inst, len(args) == 1 and o.d[SF] is args[0],
+                            "start after update is the argument: %s" % (len(args) == 1 and o.d[SF] is args[0])))
+    return obs, npaths
+
+
+def _find_history(ev, index, m, cls, public):
+    """Interpret bounded histories (requests with one update inserted anywhere) from a freshly constructed object and
+    compare each result with start_in_force + (n mod 10).  -> description of the first departure, or None."""
+    nexts = [n for n in public if len(index.methods(cls, n)[0].args.args) == 1]
+    sets = [n for n in public if len(index.methods(cls, n)[0].args.args) == 2]
+    if len(nexts) != 1 or len(sets) != 1:
+        return None
+    nx, st = nexts[0], sets[0]
+    for k in [None] + list(range(0, 13)):
+        N = 1200 if k is None else 24
+
+        def task(k=k, N=N):
+            s = StartStub("start0")
+            o = ev.instantiate(MOD + "." + CLS, [s])
+            cur = s
+            for n in range(N):
+                if k is not None and n == k:
+                    cur = StartStub("start1")
+                    ev.call(Frame(ev, m, {}).getattr(o, st), [cur], {})
+                res = ev.call(Frame(ev, m, {}).getattr(o, nx), [], {})
+                if not isinstance(res, (int, Aff)) or isinstance(res, bool):
+                    return "request %d returns %r" % (n, res)
+                d = B.norm(Aff.of(res) - cur.v - (n % 10))
+                if not (d.is_const() and d.c == 0):
+                    return "request %d returns start%+d instead of start%+d" % (n, (d.c + n % 10), n % 10) if d.is_const() \
+                        else "request %d returns a value that differs from start+%d by %r" % (n, n % 10, d)
+            return None
+        hist = "%d requests" % N if k is None else "%d requests with an update before request %d" % (N, k)
+        for p, status, val in B.explore(task):
+            if status != "ok":
+                return "%s: raises %s" % (hist, val.exc_name)
+            if val is not None:
+                return "%s: %s" % (hist, val)
+    return None
 
 
 def _fmt(p):
